@@ -18,6 +18,12 @@
 (*                  or splitLocked (a write mutex around both, which is    *)
 (*                  what WebSocketConn.writeM provides around gorilla's    *)
 (*                  multi-Write WriteMessage, websocket.go:19-28)          *)
+(*   WriteRefuse    Write refuses a message longer than WLimit             *)
+(*   WriteFail(w,n,p) the transport fails the underlying Write after p     *)
+(*                  bytes (deadline expiry): p = 0 leaves the stream       *)
+(*                  intact, p > 0 leaves a torn record and ends it.        *)
+(*                  staleBuf = deviation candidate: the failed record      *)
+(*                  stays in the pooled buffer and precedes the next one.  *)
 (* Transport:                                                              *)
 (*   Chunk(n)       one underlying Read: the transport hands the reader    *)
 (*                  ANY non-empty prefix of what is in flight, at most     *)
@@ -40,13 +46,20 @@ CONSTANTS
   Lens,     \* body lengths writers choose from
   NW,       \* number of writer processes
   MaxRec,   \* number of records written in one behaviour
-  WMode,    \* "atomic" | "split" | "splitLocked"
-  RMode     \* "full" | "single" | "trunc"
+  WMode,    \* "atomic" | "split" | "splitLocked" | "staleBuf"
+  RMode,    \* "full" | "single" | "trunc"
+  MaxFail,  \* how many Write calls the transport may refuse in one behaviour
+  FmtMax,   \* largest body length the header's length field can carry (Go: 2^16 - 1)
+  WLimit    \* largest body length Write accepts (Go: 2^14 + 256); the design needs WLimit <= FmtMax
 
 VARIABLES
   wire,     \* tagged bytes in flight
-  recs,     \* record id -> [w, k, len]: writer, index in that writer's sequence, body length
-  cnt,      \* per writer: messages written so far
+  recs,     \* record id -> [w, k, len, hl, cut]: writer, index in that writer's sequence, body length,
+            \*   length announced by the header (len mod FmtMax+1), bytes of the record that reached the wire
+  cnt,      \* per writer: Write calls made so far (accepted, refused or failed)
+  fails,    \* Write calls the transport failed with ZERO bytes sent: [w, k, len] (must never be delivered)
+  broken,   \* a Write failed after a prefix of its record was sent: the stream cannot continue
+  stale,    \* staleBuf deviation: index in fails of the record still sitting in the pooled write buffer
   pend,     \* per writer: record whose body is still to be written (split modes), 0 if none
   lock,     \* writer holding the write mutex (splitLocked), 0 if free
   phase,    \* "hdr" | "body" | "over" | "dead"
@@ -56,9 +69,9 @@ VARIABLES
   nbc,      \* underlying Reads that delivered body bytes to the call in progress
   out       \* what the Read calls returned so far, in order: [err, msg]
 
-wvars == <<wire, recs, cnt, pend, lock>>
+wvars == <<wire, recs, cnt, pend, lock, fails, broken, stale>>
 rdvars == <<phase, need, hgot, bgot, nbc>>
-vars == <<wire, recs, cnt, pend, lock, phase, need, hgot, bgot, nbc, out>>
+vars == <<wire, recs, cnt, pend, lock, fails, broken, stale, phase, need, hgot, bgot, nbc, out>>
 
 Min(a, b) == IF a < b THEN a ELSE b
 
@@ -68,31 +81,75 @@ RecBytes(r, n)  == HdrBytes(r) \o BodyBytes(r, n)
 
 \* length field of a collected header; a "header" that is not the header of one record (only
 \* reachable after a deviation has already corrupted the stream) decodes to 0
+\* (records of failed writes that a deviation puts on the wire all the same carry negative ids)
 Decode(h) == LET r == h[1][1] IN
-             IF r \in 1..Len(recs) /\ h = HdrBytes(r) THEN recs[r].len ELSE 0
+             IF h # HdrBytes(r) THEN 0
+             ELSE IF r \in 1..Len(recs) THEN recs[r].hl
+             ELSE IF -r \in 1..Len(fails) THEN fails[-r].len
+             ELSE 0
 
 RLInit ==
   /\ wire = <<>> /\ recs = <<>>
   /\ cnt = [w \in 1..NW |-> 0] /\ pend = [w \in 1..NW |-> 0] /\ lock = 0
+  /\ fails = <<>> /\ broken = FALSE /\ stale = 0
   /\ phase = "hdr" /\ need = H /\ hgot = <<>> /\ bgot = <<>> /\ nbc = 0
   /\ out = <<>>
 
 -----------------------------------------------------------------------------
 \* writers
 
-NewRec(w, n) == [w |-> w, k |-> cnt[w] + 1, len |-> n]
+RECURSIVE SumTo(_, _)
+SumTo(f, n) == IF n = 0 THEN 0 ELSE f[n] + SumTo(f, n - 1)
+Calls == SumTo(cnt, NW)         \* Write calls made so far
 
+NewRec(w, n) == [w |-> w, k |-> cnt[w] + 1, len |-> n, hl |-> n % (FmtMax + 1), cut |-> H + n]
+
+\* one underlying Write carries the whole record.  (staleBuf deviation: a record whose Write failed is
+\* still in the pooled buffer; it goes out first, followed by this record without its 3-byte prefix.)
 WriteRec(w, n) ==
-  /\ WMode = "atomic"
-  /\ Len(recs) < MaxRec
+  /\ WMode \in {"atomic", "staleBuf"}
+  /\ Calls < MaxRec /\ ~broken
+  /\ n <= WLimit
   /\ recs' = Append(recs, NewRec(w, n))
   /\ cnt' = [cnt EXCEPT ![w] = @ + 1]
-  /\ wire' = wire \o RecBytes(Len(recs) + 1, n)
+  /\ wire' = wire \o (IF stale # 0
+                        THEN RecBytes(-stale, fails[stale].len) \o SubSeq(RecBytes(Len(recs) + 1, n), 4, H + n)
+                        ELSE RecBytes(Len(recs) + 1, n))
+  /\ stale' = 0
+  /\ UNCHANGED <<pend, lock, fails, broken, rdvars, out>>
+
+\* Write refuses a message (tls.go:98-100): nothing reaches the wire.  Always allowed by the statement.
+WriteRefuse(w, n) ==
+  /\ WMode \in {"atomic", "staleBuf"}
+  /\ Calls < MaxRec /\ ~broken
+  /\ n > WLimit
+  /\ cnt' = [cnt EXCEPT ![w] = @ + 1]
+  /\ UNCHANGED <<wire, recs, pend, lock, fails, broken, stale, rdvars, out>>
+
+\* the transport fails the underlying Write (e.g. write deadline expired while the peer's window is
+\* full) after accepting p bytes - net.Conn permits any p < record length.  p = 0: the call reports
+\* failure, the stream is intact and later Writes must work; the message must never be delivered.
+\* p > 0: a torn record is on the wire and nothing can follow it (the caller closes the connection).
+WriteFail(w, n, p) ==
+  /\ WMode \in {"atomic", "staleBuf"}
+  /\ Calls < MaxRec /\ ~broken
+  /\ Len(fails) < MaxFail
+  /\ n <= WLimit
+  /\ p \in 0..(H + n - 1)
+  /\ cnt' = [cnt EXCEPT ![w] = @ + 1]
+  /\ IF p = 0
+       THEN /\ fails' = Append(fails, [w |-> w, k |-> cnt[w] + 1, len |-> n])
+            /\ stale' = IF WMode = "staleBuf" THEN Len(fails) + 1 ELSE 0
+            /\ UNCHANGED <<wire, recs, broken>>
+       ELSE /\ recs' = Append(recs, [NewRec(w, n) EXCEPT !.cut = p])
+            /\ wire' = wire \o SubSeq(RecBytes(Len(recs) + 1, n), 1, p)
+            /\ broken' = TRUE
+            /\ UNCHANGED <<fails, stale>>
   /\ UNCHANGED <<pend, lock, rdvars, out>>
 
 WriteHdr(w, n) ==
   /\ WMode \in {"split", "splitLocked"}
-  /\ Len(recs) < MaxRec
+  /\ Calls < MaxRec
   /\ pend[w] = 0
   /\ WMode = "splitLocked" => lock = 0
   /\ recs' = Append(recs, NewRec(w, n))
@@ -100,14 +157,14 @@ WriteHdr(w, n) ==
   /\ wire' = wire \o HdrBytes(Len(recs) + 1)
   /\ pend' = [pend EXCEPT ![w] = Len(recs) + 1]
   /\ lock' = IF WMode = "splitLocked" THEN w ELSE 0
-  /\ UNCHANGED <<rdvars, out>>
+  /\ UNCHANGED <<fails, broken, stale, rdvars, out>>
 
 WriteBody(w) ==
   /\ pend[w] # 0
   /\ wire' = wire \o BodyBytes(pend[w], recs[pend[w]].len)
   /\ pend' = [pend EXCEPT ![w] = 0]
   /\ lock' = 0
-  /\ UNCHANGED <<recs, cnt, rdvars, out>>
+  /\ UNCHANGED <<recs, cnt, fails, broken, stale, rdvars, out>>
 
 -----------------------------------------------------------------------------
 \* transport + reader
@@ -128,7 +185,7 @@ Chunk(n) ==
                         ELSE phase' = "body" /\ need' = Min(l, Buf)
        ELSE /\ bgot' = bgot \o SubSeq(wire, 1, n) /\ hgot' = hgot
             /\ nbc' = nbc + 1 /\ need' = need - n /\ phase' = "body"
-  /\ UNCHANGED <<recs, cnt, pend, lock, out>>
+  /\ UNCHANGED <<recs, cnt, pend, lock, fails, broken, stale, out>>
 
 ReturnEnabled ==
   \/ phase = "over"
@@ -144,7 +201,8 @@ Return ==
   /\ UNCHANGED wvars
 
 Next ==
-  \/ \E w \in 1..NW, n \in Lens : WriteRec(w, n) \/ WriteHdr(w, n)
+  \/ \E w \in 1..NW, n \in Lens : WriteRec(w, n) \/ WriteHdr(w, n) \/ WriteRefuse(w, n)
+  \/ \E w \in 1..NW, n \in Lens : \E p \in 0..(H + n - 1) : WriteFail(w, n, p)
   \/ \E w \in 1..NW : WriteBody(w)
   \/ \E n \in 1..(H + Buf) : Chunk(n)
   \/ Return
@@ -177,7 +235,8 @@ PerWriterOrder == \A i, j \in 1..Len(recs) :
 \* flight is the concatenation of the not-yet-returned records, whole, in id order (a record
 \* whose body write is pending may be cut short at the very end only)
 RECURSIVE Cat(_, _)
-Cat(i, n) == IF i > n THEN <<>> ELSE RecBytes(i, recs[i].len) \o Cat(i + 1, n)
+Cat(i, n) == IF i > n THEN <<>>
+             ELSE SubSeq(RecBytes(i, recs[i].len), 1, recs[i].cut) \o Cat(i + 1, n)
 IsPrefix(s, t) == Len(s) <= Len(t) /\ s = SubSeq(t, 1, Len(s))
 InFlight == hgot \o bgot \o wire
 NoInterleave ==
@@ -188,8 +247,17 @@ NoInterleave ==
 \* a Read call never sits on a complete message, and once everything in flight is consumed
 \* everything written has been returned
 Complete ==
-  (wire = <<>> /\ (\A w \in 1..NW : pend[w] = 0) /\ phase \in {"hdr", "body"} /\ ~ReturnEnabled)
+  (wire = <<>> /\ (\A w \in 1..NW : pend[w] = 0) /\ phase \in {"hdr", "body"} /\ ~ReturnEnabled /\ ~broken)
      => (phase = "hdr" /\ need = H /\ Len(out) = Len(recs))
+
+\* a message whose Write failed with nothing sent is never delivered, in whole or in part
+NoGhost == \A i \in 1..Len(out) : \A j \in 1..Len(out[i].msg) : out[i].msg[j][1] > 0
+
+\* a torn record (Write failed after a prefix) is never delivered as a message
+NoTorn == \A i \in 1..Len(out) : (~out[i].err /\ i <= Len(recs)) => recs[i].cut = H + recs[i].len
+
+\* Write accepts a message only if its length fits the header's length field
+Fits == \A i \in 1..Len(recs) : recs[i].len <= FmtMax /\ recs[i].hl = recs[i].len
 
 TypeOK ==
   /\ phase \in {"hdr", "body", "over", "dead"}
@@ -198,4 +266,5 @@ TypeOK ==
   /\ phase = "hdr" => (Len(hgot) + need = H /\ bgot = <<>>)
   /\ phase = "body" => Len(hgot) = H
   /\ lock \in 0..NW
+  /\ broken \in BOOLEAN /\ stale \in 0..Len(fails)
 =============================================================================
